@@ -392,9 +392,9 @@ def replay(ctx: Ctx, case):
 
 def run(ctx: Ctx):
     q = ctx.tier == "quick"
-    if not run_given(ctx, "balance", cases(24), check_balance, per_shard(ctx, 2000 if q else 30000), batch=50):
+    if not run_given(ctx, "balance", cases(24), check_balance, per_shard(ctx, 1500 if q else 30000), batch=50):
         return
-    if not run_given(ctx, "cli-blacklist", cli_cases(), check_cli, per_shard(ctx, 200 if q else 4000), batch=25):
+    if not run_given(ctx, "cli-blacklist", cli_cases(), check_cli, per_shard(ctx, 160 if q else 4000), batch=20):
         return
     if not q:
         run_given(ctx, "balance-large", cases(40), check_balance, per_shard(ctx, 3000), batch=30)
